@@ -15,7 +15,11 @@ class Unsupported(Exception):
 
 
 class PathAbort(Exception):
-    """internal: stop executing this path (infeasible or finished early)"""
+    """internal: stop executing this path (infeasible)"""
+
+
+class PathEnd(Exception):
+    """internal: a path that ends by design (end of an arbitrary loop iteration): its obligations count"""
 
 
 class Obligation:
@@ -285,6 +289,8 @@ def explore(run_path, max_paths=400, timeout_ms=10000, label=""):
         cx = Ctx(dec, timeout_ms=timeout_ms, label=label)
         try:
             res = run_path(cx)
+        except PathEnd:
+            res = PathResult(cx, "segment")
         except PathAbort:
             res = PathResult(cx, "infeasible")
         for alt in cx.new_alternatives:
